@@ -20,6 +20,7 @@ class Result:
         self.functions = 0
         self.call_sites = 0
         self.wall = 0.0
+        self.inconclusive = []
 
 
 def analyse(program):
@@ -82,6 +83,23 @@ def analyse(program):
         rules_struct.search_closures(eng, closures, sv)
         if kind == "rc_drop":
             rules_struct.iter5(eng, sv)
+    # Drop impls of the crate's own guard types, on their own (they may be run by library drop glue)
+    from rules_ts import GuardDrop
+    for f in list(P.facts.fns.values()):
+        if f.f.get("impl_trait") == "core::ops::Drop" and f.name == "drop":
+            adt = (f.f.get("impl_self") or {}).get("adt")
+            if not adt or adt in (RC, WEAK) or adt not in P.facts.adts:
+                continue
+            flds = [x["name"] for x in P.facts.adts[adt]["fields"] if (x.get("tyj") or {}).get("dp", 0) & 1 or any(h in ((x.get("tyj") or {}).get("ldt") or []) for h in (RC, WEAK))]
+            eng = P.run(f, [GuardDrop(adt, flds)])
+            for v in eng.violations.values():
+                v = dict(v)
+                v["config"] = P.config
+                v["entry_short"] = short(f.path)
+                res.violations.append(v)
+            for (rule, what, b) in eng.obligations:
+                w = eng.where(b)
+                res.obligations.add((rule, what, w["fn"], str(w["bb"]), "%s:%s" % (w["file"], w["line"])))
     rules_struct.iter4(P, sv)
     rules_struct.cg1(P, sv)
     rules_struct.eff4(P, sv)
@@ -101,9 +119,12 @@ def analyse(program):
             res.obligations.add((rule, what, p[0], p[1], "%s:%s" % (t.get("file"), t.get("line"))))
         else:
             res.obligations.add((rule, what, str(where[0]), str(where[1]), ""))
-    if P.inliner.lazy_unexpanded:
-        e, b, what = P.inliner.lazy_unexpanded[0]
-        raise Inconclusive("%s in %s runs a closure with side effects inside library iterator code that is not expanded; its effects cannot be analysed" % (what, e))
+    res.inconclusive = []
+    seen_ = set()
+    for e, b, what in P.inliner.lazy_unexpanded:
+        if what not in seen_:
+            seen_.add(what)
+            res.inconclusive.append("%s (in %s): code of the crate with side effects runs inside library code that is not expanded; its effects cannot be analysed" % (what, e))
     res.functions = len(P.facts.fns)
     res.call_sites = sum(1 for f in P.facts.fns.values() for b in f.blocks if b["term"]["k"] == "call")
     res.unresolved = sorted(set(P.inliner.unresolved))
@@ -120,4 +141,6 @@ if __name__ == "__main__":
         print("VIOL", v["rule"], v["key"], "|", v.get("entry_short"), "|", v["msg"][:300], "|", v["where"]["fn"].split("::")[-1], v["where"].get("line"))
     c = Counter(o[0] for o in res.obligations)
     print("obligations", dict(sorted(c.items())))
+    for r_ in res.inconclusive:
+        print("INCONCLUSIVE", r_)
     print("entries", len(res.entries), "states", res.states, "%.1fs" % res.wall, "unresolved", res.unresolved)
